@@ -331,7 +331,10 @@ def flagged_parsed_ob(prog, res, du, dfi):
     seen = [r for r in recs if r['flag'] is not None]
     bad = [r for r in seen if r['flag'] != r['parsed']]
     res.count(evaluations=len(recs))
-    if not seen:
+    unk = [u for r in recs for u in r['path'].unknowns]
+    if unk:
+        ob.verdict, ob.detail = UNDECIDED, f'construct outside the interpreted fragment: {unk[0][0]}'
+    elif not seen:
         ob.verdict, ob.detail = UNDECIDED, 'no test of the element flag observed in the element loop'
     elif bad:
         r = bad[0]
